@@ -146,7 +146,22 @@ Section Denote.
   Variable static_text : kind -> option text.
   Variable H : list hw -> N.     (* the 32-bit child hash: ARBITRARY in all theorems *)
 
-  Definition resolve (strs : list text) (key : N) : option text := nth_error strs (N.to_nat key).
+  (* lookup by a binary index (no unary conversion of the key: keys range over all of u32) *)
+  Fixpoint nth_N (l : list text) (i : N) : option text :=
+    match l with
+    | [] => None
+    | x :: r => if i =? 0 then Some x else nth_N r (i - 1)
+    end.
+
+  Definition resolve (strs : list text) (key : N) : option text := nth_N strs key.
+
+  Lemma resolve_eq strs key : resolve strs key = nth_error strs (N.to_nat key).
+  Proof.
+    unfold resolve. revert key; induction strs as [|x r IH]; intros key; cbn [nth_N].
+    - destruct (N.to_nat key); reflexivity.
+    - destruct (N.eqb_spec key 0) as [->|NE]; [reflexivity|].
+      rewrite IH. replace (N.to_nat key) with (S (N.to_nat (key - 1))) by lia. reflexivity.
+  Qed.
 
   (* syntax/token.rs resolve_text: static text first, else the interned key *)
   Definition tok_text (strs : list text) (k : kind) (key : option N) : option text :=
